@@ -100,7 +100,14 @@ func runC15(c *eng.Ctx) {
 		d := p.Desc(st.Instr.(*ssa.Store).Val)
 		c.Check(strings.HasPrefix(d, "!") && strings.Contains(d, "ensureIncreasingKey(key)"), "badKey-is-order-test", st.Instr, pr, "the bad-key flag is the negated order test of the prepared key", "stores "+d)
 		for _, s := range c.Some(pr, eng.StoreField(swT+".offset"), "sw.offset = writer.Size()") {
-			c.Check(strings.Contains(p.Desc(s.Instr.(*ssa.Store).Val), ".writer.Size()"), "offset-at-prepare", s.Instr, pr, "the entry offset is the file size when the entry is prepared", "")
+			okSz := true
+			for _, src := range leafSources(s.Instr.(*ssa.Store).Val) {
+				cl, isC := src.(*ssa.Call)
+				if !isC || calleeName(cl) != "Size" || eng.CallRecv(cl) == nil || !eng.DependsOnField(eng.CallRecv(cl), sbT+".writer") {
+					okSz = false
+				}
+			}
+			c.Check(okSz, "offset-at-prepare", s.Instr, pr, "the entry offset is the file size when the entry is prepared", "stores "+p.Desc(s.Instr.(*ssa.Store).Val))
 		}
 		w := c.Fn(swT + ".Write")
 		facts := p.MustFacts(w)
